@@ -97,6 +97,23 @@ func checkNoElementSkipped(p *core.Prog, r *core.Report, rule string, pkg string
 				if cc, ok := core.IsBuiltinCall(in, "copy"); ok && cc != nil {
 					return true
 				}
+				// a helper of the package that is handed the accumulator (the write cursor) and does the copying
+				if c, ok := in.(*ssa.Call); ok {
+					if callee := core.StaticFn(c.Common()); callee != nil && callee.Pkg == fn.Pkg && callee.Blocks != nil {
+						handed := false
+						for _, a := range c.Call.Args {
+							if acc[a] {
+								handed = true
+							}
+						}
+						if handed && len(core.FindInstrs(callee, func(x ssa.Instruction) bool { _, isCopy := core.IsBuiltinCall(x, "copy"); return isCopy })) > 0 {
+							return true
+						}
+					}
+				}
+				if cc, ok := core.IsBuiltinCall(in, "append"); ok && cc != nil && len(cc.Args) > 0 && acc[cc.Args[0]] {
+					return true // the element is appended to the list being built
+				}
 				if bo, ok := in.(*ssa.BinOp); ok && bo.Op == token.ADD {
 					for a := range acc {
 						if core.SkipConv(bo.X) == a || core.SkipConv(bo.Y) == a {
